@@ -116,7 +116,15 @@ def check(run):
                     if v not in variants:
                         variants.append(v)
             rng.shuffle(variants)
-            variants = variants[:10]
+            variants = variants[:8]
+            # entries whose parameters agree with the first one to six, nine or twelve significant digits and differ beyond (round-9 seed C06_10: parametrisations
+            # re-used under a key that prints the parameters with `{:g}`): each entry evaluates with ITS OWN parameters
+            for pos in range(nparam):
+                for rel in (3e-8, -7e-11, 2e-14):
+                    v = list(base)
+                    v[pos] = base[pos] * (1 + rel) if base[pos] != 0 else rel
+                    if v not in variants and not (n == "zbl" and v[pos] <= 0) and rng.random() < 0.5:
+                        variants.append(v)
             lines = ["X%d-Y : >=0 as.%s %s" % (i, n, " ".join((str(int(x)) if float(x).is_integer() and rng.random() < 0.5 else num(x)) for x in v)) for i, v in enumerate(variants)]
             try:
                 pots = potable_energy(lines)
